@@ -1,0 +1,8 @@
+//go:build !verif
+
+package store
+
+// Counterparts of the verification hooks in verif_export.go: no-ops in normal builds.
+
+func verifResolveSpawned()  {}
+func verifResolveFinished() {}
